@@ -115,7 +115,7 @@ func c08expectLeaves(kids []*gen.SNode, body []*gen.DNode) string {
 }
 
 func C08(c *core.Ctx) {
-	c.Rule = "for every container and list entry of generated trees (depth ≤4, lists in lists, compound keys, hostile key alphabet / , = % + blank non-ASCII empty): Find from the root, with a trailing slash, module-qualified, from a deeper start selection through ../ steps, and with a query parameter; the selection's content, its rendered path (re-parsed and re-found), absent keys/containers, unknown names, store unchanged; the Lean path codec is compared with Path.String on the same segments. non-trivial = node at depth ≥2 or with a key needing escaping; distinct by (tree, node, variant)"
+	c.Rule = "for every container and list entry of generated trees (depth ≤4, lists in lists, compound keys, hostile key alphabet / , = % + blank non-ASCII empty): Find from the root, with a trailing slash, module-qualified, from a deeper start selection through ../ steps, and with a query parameter; the selection's content, its rendered path (re-parsed and re-found), absent keys/containers, unknown names, store unchanged; the Lean path codec is compared with Path.String on the same segments; start selections on a set leaf (its Parent(), its path, ../ steps from it); a store that answers lookups by key without returning the key. non-trivial = node at depth ≥2 or with a key needing escaping; distinct by (tree, node, variant)"
 	c.Assumptions = append(c.Assumptions, "net/url.QueryEscape/QueryUnescape are modelled on bytes (Model/Path.lean) and compared on every generated key")
 	c.ProofStep("YangVerif.Props.C08")
 	if c.Thorough() {
